@@ -30,6 +30,10 @@ stream of the C14 check):
   `timestamp` and `event_id` (always the case for selection queries).
 * The orchestrator always passes `materialization_high_water_ts` (`"0"` when there is no
   mark), so the pruner's `created_at` branch is never taken from SHOW.
+* SHOW first sends `AwaitFlush` to every shard (`wait_for_inflight_flushes`); REMEMBER does not,
+  and it appends the raw batches of its initial run — rows of a memtable whose flush is in its
+  window (files readable, passive buffer not yet released) arrive twice and are stored twice.
+  `QUERY` hides that double visibility by de-duplicating on the event id (`dedupById`).
 
 Batch arrival order is scheduling: the functions take the delivered batches as an argument
 (`sched`); `LegitShow` / `LegitRemember` say that the batches are a split of what the query
@@ -102,14 +106,18 @@ structure Zone where
   mtime : Nat
 deriving Repr
 
-/-- Memtable + passive buffer rows, and the zones of all published segments (all shards). -/
+/-- Memtable rows (active memtables and passive buffers whose segment is not readable yet), the
+rows of passive buffers whose segment files are **already readable** (`passive`: a flush job
+between "zones written" and "passive buffer cleared" — such a row is scanned twice, from the
+buffer and from its zone), and the zones of all readable segments (all shards). -/
 structure Store where
   mem : List Ev
   zones : List Zone
+  passive : List Ev := []
 deriving Repr
 
-/-- Everything a plain scan sees. -/
-def Store.vis (s : Store) : List Ev := s.mem ++ s.zones.flatMap (·.rows)
+/-- Everything a plain scan sees (rows in the flush window twice). -/
+def Store.vis (s : Store) : List Ev := s.mem ++ s.passive ++ s.zones.flatMap (·.rows)
 
 def maxOf (l : List Nat) : Nat := l.foldr max 0
 
@@ -133,7 +141,7 @@ def zoneKept (guard : Option (Nat × Option Nat)) (z : Zone) : Bool :=
 
 /-- Rows scanned: memtables always, zones unless dropped. -/
 def scanRows (s : Store) (guard : Option (Nat × Option Nat)) : List Ev :=
-  s.mem ++ (s.zones.filter (zoneKept guard)).flatMap (·.rows)
+  s.mem ++ s.passive ++ (s.zones.filter (zoneKept guard)).flatMap (·.rows)
 
 /-- Result rows of `QUERY q` (guard `none`) or of the delta query of SHOW. -/
 def runQuery (s : Store) (q : Spec) (guard : Option (Nat × Option Nat)) : List Ev :=
@@ -148,7 +156,28 @@ query in this file are independent of them, `Lemmas.Materialize.delta_filter_eq`
 def Store.flush (s : Store) (shard now : Nat) : Store :=
   let mv := s.mem.filter (·.shard == shard)
   if mv.isEmpty then s else
-  { mem := s.mem.filter (fun e => !(e.shard == shard)), zones := s.zones ++ [mkZone now mv] }
+  { s with mem := s.mem.filter (fun e => !(e.shard == shard)), zones := s.zones ++ [mkZone now mv] }
+
+/-- The first half of a flush: the segment's files exist (its zone is read), the passive buffer
+still holds the rows (`flush_worker.rs` between the points `flusher.zones_written` and
+`flush.passive_cleared`). -/
+def Store.flushBegin (s : Store) (shard now : Nat) : Store :=
+  let mv := s.mem.filter (·.shard == shard)
+  if mv.isEmpty then s else
+  { mem := s.mem.filter (fun e => !(e.shard == shard)), zones := s.zones ++ [mkZone now mv],
+    passive := s.passive ++ mv }
+
+/-- The second half: the passive buffers are released. -/
+def Store.flushEnd (s : Store) : Store := { s with passive := [] }
+
+/-- `QueryResponseWriter` drops a row whose event id was already emitted
+(`query/streaming/response_writer.rs::try_accept_row`): what the user sees of `QUERY q`.
+REMEMBER and SHOW bypass it. -/
+def dedupById : List Ev → List Ev
+  | [] => []
+  | e :: l => e :: (dedupById l).filter (fun r => !(r.id == e.id))
+
+def queryAnswer (s : Store) (q : Spec) : List Ev := dedupById (runQuery s q none)
 
 /-- Rows of a zone all belong to `shard` (zones are per shard). -/
 def Zone.ofShard (z : Zone) (shard : Nat) : Bool := z.rows.all (·.shard == shard)
@@ -159,7 +188,7 @@ def Store.compact (s : Store) (shard now : Nat) : Store :=
   let ins := s.zones.filter (·.ofShard shard)
   if ins.length < 2 then s else
   let rows := ins.flatMap (·.rows)
-  { mem := s.mem,
+  { s with
     zones := s.zones.filter (fun z => !z.ofShard shard) ++
       [{ rows, tsMax := maxOf (rows.map (·.ts)), createdAt := maxOf (ins.map (·.createdAt)), mtime := now }] }
 
@@ -284,5 +313,32 @@ def step (s : St) : Op → St
   | .showM n sched => (showM s n sched).1
 
 def run (s : St) (ops : List Op) : St := ops.foldl step s
+
+/-! ## The AwaitFlush barrier
+
+`engine/shard/flush_progress.rs` (two counters), `engine/store/insert.rs` / `worker.rs::on_flush`
+(`next_id` when a memtable is queued for flushing), `flush_worker.rs:258` (`mark_completed` after
+the job's task ended, success or not), `worker.rs::on_wait_for_flush` (the barrier SHOW sends to
+every shard: `target = submitted`, wait until `completed >= target`). `pending` is a ghost field:
+the tickets handed out and not yet completed. -/
+
+structure Progress where
+  submitted : Nat
+  completed : Nat
+  pending : List Nat
+deriving Repr
+
+def Progress.init : Progress := { submitted := 0, completed := 0, pending := [] }
+
+/-- `FlushProgress::next_id`: `fetch_add(1) + 1`. -/
+def Progress.nextId (p : Progress) : Progress × Nat :=
+  ({ p with submitted := p.submitted + 1, pending := p.pending ++ [p.submitted + 1] }, p.submitted + 1)
+
+/-- `FlushProgress::mark_completed`: `completed := max(completed, id)`. -/
+def Progress.markCompleted (p : Progress) (id : Nat) : Progress :=
+  { p with completed := max p.completed id, pending := p.pending.filter (fun t => !(t == id)) }
+
+/-- `on_wait_for_flush` returns once `completed >= target`. -/
+def Progress.barrierOpen (p : Progress) (target : Nat) : Bool := decide (target ≤ p.completed)
 
 end Snel.Materialize
